@@ -15,6 +15,7 @@ package vsched
 import (
 	"fmt"
 	"runtime"
+	"strings"
 	"sync/atomic"
 )
 
@@ -48,7 +49,15 @@ type LockState struct {
 	Writer  bool
 	Readers int32
 	ID      uint32 // assigned lazily, per process; only for traces
+	rd      []int  // ids of the controlled threads holding it in read mode (recursion detection)
 }
+
+// RecursiveReads counts read-lock acquisitions by a thread that already holds the same RW lock in read
+// mode. sync.RWMutex prefers writers: such a re-acquisition deadlocks if a writer arrives in between. The
+// scheduler models RW locks WITHOUT writer preference, so it would not see that deadlock; the drivers
+// report this counter (0 on every explored schedule = the modelling difference does not matter there).
+var RecursiveReads int
+var RecursiveReadSites = map[string]int{}
 
 var nextLockID uint32
 
@@ -448,6 +457,35 @@ func Acquire(l *LockState, k Kind) {
 		l.Writer = true
 	} else {
 		l.Readers++
+		if t != nil {
+			for _, id := range l.rd {
+				if id == t.ID {
+					RecursiveReads++
+					if len(RecursiveReadSites) < 20 {
+						RecursiveReadSites[callerSite()]++
+					}
+					break
+				}
+			}
+			l.rd = append(l.rd, t.ID)
+		}
+	}
+}
+
+// callerSite: first frame outside the shims (for RecursiveReadSites).
+//go:norace
+func callerSite() string {
+	pc := make([]uintptr, 12)
+	n := runtime.Callers(3, pc)
+	fr := runtime.CallersFrames(pc[:n])
+	for {
+		f, more := fr.Next()
+		if !strings.Contains(f.Function, "verifshim") && f.Function != "" {
+			return fmt.Sprintf("%s:%d", f.Function, f.Line)
+		}
+		if !more {
+			return "?"
+		}
 	}
 }
 
@@ -461,6 +499,9 @@ func TryAcquire(l *LockState, k Kind) bool {
 		l.Writer = true
 	} else {
 		l.Readers++
+		if t := curThread(); t != nil {
+			l.rd = append(l.rd, t.ID)
+		}
 	}
 	return true
 }
@@ -477,6 +518,16 @@ func Release(l *LockState, k Kind) {
 			panic("vsched: RUnlock of unlocked RWMutex")
 		}
 		l.Readers--
+		if t := curThread(); t != nil {
+			for i := len(l.rd) - 1; i >= 0; i-- {
+				if l.rd[i] == t.ID {
+					l.rd = append(l.rd[:i], l.rd[i+1:]...)
+					break
+				}
+			}
+		} else {
+			l.rd = nil
+		}
 	}
 }
 
